@@ -87,7 +87,8 @@ class EnsembleSampler(MarkovChain):
                 for v in self.walker_positions:
                     self.bounds.validate_start_point(v, error_source="EnsembleSampler")
 
-            self.process_proposal = self.bounds.reflect
+            # proposals which fall outside the bounds are rejected (see __advance_walker)
+            self.process_proposal = self.pass_through
 
         # proposal settings
         if not alpha > 1.0:
@@ -196,6 +197,10 @@ class EnsembleSampler(MarkovChain):
     def __advance_walker(self, i: int):
         for attempts in range(1, self.max_attempts + 1):
             Y, z = self.__proposal(i)
+            # a stretch move cannot be reversed if it is folded back inside the
+            # bounds, so proposals which leave the bounds are rejected instead
+            if self.bounds is not None and not self.bounds.inside(Y):
+                continue
             p = self.posterior(Y)
             q = exp((self.n_parameters - 1) * log(z) + p - self.walker_probs[i])
             if self.rng.random() <= q:
